@@ -1,6 +1,6 @@
 From Coq Require Import NArith.
 From Stam Require Import Base.Tac Model.Offset Model.Utf8 Model.Store Model.Validate
-     Spec.StoreSpec Spec.ValidateSpec Proofs.StoreInv Proofs.StoreSets Proofs.ValidateJoin Proofs.ValidateProtect Props.C18.
+     Spec.StoreSpec Spec.ValidateSpec Proofs.StoreInv Proofs.StoreSets Proofs.ValidateJoin Proofs.ValidateProtect Proofs.ValidateReload Props.C18.
 Check (C18_join_determines_pieces : forall d ps qs,
   map (@length N) ps = map (@length N) qs -> text_join d ps = text_join d qs -> ps = qs).
 Check (C18_validate_is_reference_check : forall H txts s a,
@@ -44,3 +44,7 @@ Print Assumptions C18_references_detect.
 Print Assumptions C18_references_detect_text_mode.
 Print Assumptions C18_code_order_irrelevant.
 Print Assumptions Known_C18_regrouped_witness.
+Print Assumptions C18_other_length_guarded.
+Print Assumptions Known_C18_regrouped_refuted.
+Print Assumptions C18_same_length_same_selection.
+Print Assumptions C18_same_parent_same_selection.
